@@ -344,8 +344,11 @@ class Check:
         nd = sum(1 for o in self.obs if o.status == "discharged")
         lines = []
         code = EXIT_OK
+        seen = {}
         for o, k in self.known_hits:
-            lines.append("KNOWN-FINDING: property=%s %s [%s]" % (self.prop, k.get("what"), o.id))
+            seen.setdefault(k.get("what"), []).append(o.id)
+        for what, ids in seen.items():
+            lines.append("KNOWN-FINDING: property=%s %s [%s%s]" % (self.prop, what, ids[0], " and %d more witnesses" % (len(ids) - 1) if len(ids) > 1 else ""))
         for o, path, suffix in self.violations:
             lines.append("VIOLATION property=%s replay=%s%s" % (self.prop, path, suffix))
             lines.append("  obligation %s: %s" % (o.id, (o.clause or "")[:160]))
